@@ -88,6 +88,19 @@ def configs(tier):
             module=dict(lib="MT41K128M16", clk=100e6, trefi_override=120))
         add("lib-MT41K128M16-1:4-200MHz-K3-refresh-W30", refresh=True, K=3, window=30, nphases=4, memtype="DDR3", databits=8, colbits=10, bankbits=3, cl=11, cwl=8, RL=5, WL=1,
             module=dict(lib="MT41K128M16", clk=200e6, speedgrade="1600", trefi_override=140))
+        # further library modules / memory types / rates (the cycle counts themselves are judged against the datasheets by C16)
+        add("lib-IS42S16160-100MHz-K3-refresh-W30", refresh=True, K=3, window=30, nphases=1, memtype="SDR", databits=16, colbits=9, bankbits=2,
+            module=dict(lib="IS42S16160", clk=100e6, trefi_override=100))
+        add("lib-IS42S16160-1:2-50MHz-K3-refresh-W30", refresh=True, K=3, window=30, nphases=2, memtype="SDR", databits=16, colbits=9, bankbits=2,
+            module=dict(lib="IS42S16160", clk=50e6, trefi_override=100))
+        add("lib-MT46V32M16-1:2-100MHz-K3-refresh-W30", refresh=True, K=3, window=30, nphases=2, memtype="DDR", databits=8, colbits=10, bankbits=2, cl=3, RL=3, WL=0,
+            module=dict(lib="MT46V32M16", clk=100e6, trefi_override=120))
+        add("lib-MT46H32M16-1:2-100MHz-K3-refresh-W30", refresh=True, K=3, window=30, nphases=2, memtype="LPDDR", databits=8, colbits=10, bankbits=2, cl=3, RL=3, WL=0,
+            module=dict(lib="MT46H32M16", clk=100e6, trefi_override=120))
+        add("lib-MT47H128M8-1:2-166MHz-K3-refresh-W30", refresh=True, K=3, window=30, nphases=2, memtype="DDR2", databits=8, colbits=10, bankbits=3, cl=5, cwl=4, RL=3, WL=0,
+            module=dict(lib="MT47H128M8", clk=166e6, trefi_override=140))
+        add("lib-MT40A512M16-1:4-200MHz-K3-refresh-W30", refresh=True, K=3, window=30, nphases=4, memtype="DDR4", databits=8, colbits=10, bankbits=3, cl=11, cwl=9, RL=5, WL=2,
+            module=dict(lib="MT40A512M16", clk=200e6, trefi_override=160))
     return cs
 
 
